@@ -525,3 +525,6 @@ func SortedIDs[K ~[32]byte, V any](m map[K]V) []types.Hash256 {
 	sort.Slice(ids, func(i, j int) bool { return bytes.Compare(ids[i][:], ids[j][:]) < 0 })
 	return ids
 }
+
+// CurOf converts a non-negative big integer below 2^128 to a Currency (exported for checks).
+func CurOf(b *big.Int) types.Currency { return cur(b) }
